@@ -689,6 +689,9 @@ fn time_cases(run: &mut Run, rng: &mut Rng, n_random: usize) {
                 let v = Value::Mapping(m);
                 run.time(ci, &v, &Expect::exactly(None), "mapping"); // as_minutes of a mapping is nothing
                 run.entry(ci, "time", &v, false);
+                // the mapping form belongs to `time` only: under `prep time` / `cook time` it is outside the documented forms
+                let k2 = *r2.pick(&["prep time", "cook time", "prep_time", "cook_time"]);
+                run.entry(ci, k2, &v, false);
             }
             _ => { // mapping with neither entry: outside the documented forms
                 let mut m = serde_yaml::Mapping::new();
